@@ -270,7 +270,15 @@ class Expander:
         try:
             n = self.cfg.node_of(site)
         except Exception:
-            return e
+            # e.g. `not a < b`: the CFG keeps the atoms of a condition, look for one of them
+            n = None
+            inside = {id(x) for x in ast.walk(site)}
+            for m in self.cfg.nodes:
+                if m.ast is not None and id(m.ast) in inside:
+                    n = m
+                    break
+            if n is None:
+                return e
         return self.expand(n, e, self.depth)
 
     def expand(self, n: Node, e: ast.expr, depth: int) -> ast.expr:
@@ -321,7 +329,24 @@ class Expander:
                         return node
                 return exp.expand(d, _c.deepcopy(v), depth - 1)
 
+            def _is_object(self, name_node):
+                """a name bound to the result of a call (constructor, factory): an object reference, not a formula"""
+                vals = exp.rd.value_exprs(n, name_node.id)
+                return len(vals) != 1 or vals[0][1] is None or isinstance(vals[0][1], ast.Call)
+
+            def visit_Attribute(self, node):
+                # `obj.attr`: an object reference is not replaced by the call that created it
+                if isinstance(node.value, ast.Name) and self._is_object(node.value):
+                    return node
+                return self.generic_visit(node)
+
             def visit_Call(self, node):
+                if isinstance(node.func, ast.Attribute) and isinstance(node.func.value, ast.Name) and self._is_object(node.func.value):
+                    # method call on a named object: expand the arguments only
+                    node.args = [self.visit(a) for a in node.args]
+                    for k in node.keywords:
+                        k.value = self.visit(k.value)
+                    return node
                 node = self.generic_visit(node)
                 r = exp._inline_call(node, depth)
                 return r if r is not None else node
